@@ -72,8 +72,8 @@ class FeatureTransformerNoise:
 
 class FeatureTransformerGeneric:
     def __init__(self, numeric_column_names: set[str], preset: str = 'default'):
+        self.transformer_collection: dict[str, str] = dict()
         for transformer_namespace in preset.split(','):
-            self.transformer_collection: dict[str, str] = dict()
             transformer_subspace = transformer_vault._tr_global_namespace.get(
                 transformer_namespace, None,
             )
